@@ -9,7 +9,7 @@ EXTENDS HintInstance
 \*  at the default location through the interpreter
 \*  21 NotoSerifTC auto-hinted @16 (a second auto-hinter font, other script)
 \*  22..25 the auto-hinter requested explicitly on four fonts (Hebrew, Traditional Chinese, autohint_cmap, Latin shaping) @19
-MCConfigs == 1..25
-MCKindOf == [c \in 1..25 |-> CASE c \in {9, 10} -> "cff" [] c \in {11, 17, 21, 22, 23, 24, 25} -> "auto" [] OTHER -> "glyf"]
-MCFails == [c \in 1..25 |-> IF c = 12 THEN "prep" ELSE "no"]
+MCConfigs == 1..27
+MCKindOf == [c \in 1..27 |-> CASE c \in {9, 10} -> "cff" [] c \in {11, 17, 21, 22, 23, 24, 25} -> "auto" [] OTHER -> "glyf"]
+MCFails == [c \in 1..27 |-> IF c = 12 THEN "prep" ELSE "no"]
 ====
